@@ -120,10 +120,20 @@ class CompressIfSupported(FnCheck):
 
     def setup(self, b):
         st = b.st
-        slf = b.obj('self', cls=(RH, 'DispatchingRequestHandler'))
         self.body = b.bytes('response_bytes')
         self.acc = z3.Const('accepted', SeqVal)
         self.supported = z3.Const('supported', z3.ArraySort(Val, BoolS))
+        # the locally enabled codings: a list object (for code that walks it) whose members are exactly `supported`
+        self.sup_seq = z3.Const('supported_seq', SeqVal)
+        sup_list = b.obj('supported_encodings')
+        st.assume(z3.Select(st.get_arr('C'), sup_list.e) == b.ex.ctx.builtin_class_ids['list'])
+        st.assume(z3.Select(st.get_arr('L'), sup_list.e) == self.sup_seq)
+        x, jx = z3.Const('x!sup', Val), z3.Int('j!sup')
+        st.assume(z3.ForAll([jx], z3.Implies(z3.And(0 <= jx, jx < z3.Length(self.sup_seq)), z3.Select(self.supported, self.sup_seq[jx]))))
+        st.assume(z3.ForAll([x], z3.Implies(z3.Select(self.supported, x), z3.Contains(self.sup_seq, z3.Unit(x)))))
+        server = b.obj('server', supported_encodings=sup_list)
+        slf = b.obj('self', cls=(RH, 'DispatchingRequestHandler'), server=server)
+        b.distinct(slf, server, sup_list)
         self.compress = z3.Function('compress', Val, StrS, StrS)
         st.ghost['hdr_n'] = z3.IntVal(0)
         st.ghost['hdr_enc'] = Val.none
